@@ -248,6 +248,17 @@ def _query(f, q, spec):
 
 
 def impl(case):
+    """a netCDF handle of the harness itself (or of another object) that stops working in the middle of a case was
+    closed by a finaliser that did not own it: that is an observation about the library, not a harness failure"""
+    try:
+        return _impl(case)
+    except (RuntimeError, lib.HarnessError) as e:
+        if 'Not a valid ID' in str(e):
+            return dict(foreign='%s: %s' % (type(e).__name__, str(e)[-160:].replace('\n', ' ')))
+        raise
+
+
+def _impl(case):
     if case['kind'] == 'hist':
         return dict(flags=c15._in_child(_run_hist, case['evs']))
     if case['kind'] == 'iopure':
@@ -302,6 +313,17 @@ def impl(case):
                 os.remove(dpath)
 
 
+def _after(before, f):
+    """what changed in the receiver; a receiver that can no longer be read at all (its handle was closed by someone else's
+    finaliser, its arrays were released) has changed too"""
+    try:
+        return _diffsnap(before, _snap(f))
+    except lib.HarnessError:
+        raise
+    except Exception as e:
+        return 'the receiver can no longer be read: %s %s' % (type(e).__name__, str(e)[:80])
+
+
 def _impl_pure(case, spec, f):
     if case['op'][0] == 'query' and case['op'][1].startswith('eval_chain'):
         # the receiver is itself the result of an earlier step: a derived variable stored under another key
@@ -324,7 +346,7 @@ def _impl_pure(case, spec, f):
         except Exception as e:
             res['err'] = type(e).__name__
             g = None
-    res['changed'] = _diffsnap(before, _snap(f))
+    res['changed'] = _after(before, f)
     res['alias'] = []
     if g is f and case['op'][0] != 'query':
         res['same_object'] = True
@@ -347,7 +369,7 @@ def _impl_pure(case, spec, f):
                     v[...] = np.zeros(v.shape, dtype=v.dtype) + 77
             except Exception:
                 pass
-        res['changed_after_write'] = _diffsnap(before, _snap(f))
+        res['changed_after_write'] = _after(before, f)
     return res
 
 
@@ -396,7 +418,7 @@ def to_line(case, res):
 
 
 def agree(case, out, res):
-    if case['kind'] != 'hist':
+    if case['kind'] != 'hist' or 'foreign' in res:
         return None
     if not out.startswith('ok '):
         return 'model ' + out[:60]
@@ -410,6 +432,8 @@ def agree(case, out, res):
 
 
 def oracle(case, res):
+    if 'foreign' in res:
+        return 'a netCDF handle that was open and in use stopped working (closed by a finaliser that did not own it): ' + res['foreign']
     if case['kind'] == 'hist':
         closed = set()
         n = 0
